@@ -28,6 +28,7 @@ use lance_core::datatypes::{
     escape_field_path_for_project, format_field_path, parse_field_path, Field, LogicalType, OnMissing, Projection, Schema,
 };
 use lance_core::Error;
+use lance_file::datatypes::Fields;
 
 #[derive(Clone)]
 enum Val {
@@ -390,6 +391,40 @@ impl C43 {
                 let Some(fields) = parse_fields(&toks[2..]) else { return bad };
                 let s = Schema { fields, metadata: HashMap::new() };
                 let out = dump_schema(&s);
+                // oracle (implementation only, not modelled): the stored form (protobuf Fields) and Arrow round trips
+                // preserve every kept attribute (Arrow carries no field ids)
+                if oracle_valid(&s) {
+                    let mut s2 = s.clone();
+                    fn set_parents(fs: &mut [Field], parent: i32) {
+                        for f in fs {
+                            f.parent_id = parent;
+                            let id = f.id;
+                            set_parents(&mut f.children, id);
+                        }
+                    }
+                    set_parents(&mut s2.fields, -1);
+                    let back = guard!(Schema::from(&Fields::from(&s2)));
+                    if dump_schema(&back) != out || back != s2 {
+                        fail("conv_roundtrip", format!("Fields round trip gives {}", dump_schema(&back)));
+                    }
+                    let arrow = guard!(arrow_schema::Schema::from(&s2));
+                    // (the conversion back validates: top-level names with dots are rejected by design, ids are re-assigned 0..n)
+                    match guard!(Schema::try_from(&arrow)) {
+                        _ if s2.validate().is_err() => {}
+                        Ok(b2) => {
+                            let (x, y) = (nodes_of(&s2), nodes_of(&b2));
+                            let same = x.len() == y.len()
+                                && x.iter().zip(y.iter()).enumerate().all(|(k, (a, b))| {
+                                    a.name == b.name && a.kind == b.kind && a.nullable == b.nullable && a.meta == b.meta && a.nchildren == b.nchildren && a.parent == b.parent && b.id == k as i32
+                                });
+                            if !same {
+                                fail("conv_roundtrip", format!("Arrow round trip gives {}", dump_schema(&b2)));
+                            }
+                        }
+                        Err(e) => fail("conv_roundtrip", format!("Arrow round trip failed: {e}")),
+                    }
+                    tags.push("def:conv_oracle".into());
+                }
                 self.state.insert(toks[1].into(), Val::S(s));
                 out
             }
